@@ -8,16 +8,20 @@ WideOrders == {Base, Reverse(Base), SubSeq(Base, 2, 10) \o <<"A">>, <<"J">> \o S
 Orders == IF Wide THEN WideOrders ELSE UNION {SetToSeqs(S) : S \in SUBSET Names \ {{}}}
 Rows(o) == IF Wide THEN {S \in SUBSET Rng(o) : Cardinality(S) <= MaxRow \/ S = Rng(o)} ELSE SUBSET Rng(o)
 
-FInit == cls \in Orders /\ phase = "defined" /\ wsets = <<>> /\ store = NoStore /\ back = <<>>
+\* definition orders explored per class: bit order and its reverse (wide: readers in bit order; four names: bit order only, definition
+\* order then differs from bit order through ExtendPair)
+DefOrders(o) == IF ~Wide /\ Cardinality(Names) > 3 THEN {o} ELSE {o, Reverse(o)}
+FInit == /\ cls \in Orders /\ defn \in DefOrders(cls)
+         /\ phase = "defined" /\ wsets = <<>> /\ store = NoStore /\ back = <<>>
 Write == phase = "defined" /\ \E n \in 1..MaxObj : \E sets \in [1..n -> Rows(cls)] : WriteAny(sets)
-Redefine == \E o \in Orders : RedefineAny(o)
-ExtendOne == \E n \in Names : Extend(n)
+Redefine == \E o \in Orders : \E d \in (IF Wide \/ Cardinality(Names) > 3 THEN {o} ELSE DefOrders(o)) : RedefineAny(o, d)
+ExtendOne == (\E n \in Names : Extend(n)) \/ (~Wide /\ \E x, y \in Names : ExtendPair(x, y))
 ReadBack == \E ext \in SetToSeqs(Missing) : Read(ext)
 FNext == Write \/ RefuseUnset \/ ExtendOne \/ Redefine \/ ReadBack
 Bound == TLCGet("level") <= 5
 Srt(S) == SetToSortSeq(S, LAMBDA a, b : IndexIn(Base, a) < IndexIn(Base, b))
-EmitRead == /\ (phase = "defined" /\ phase' = "refused") => PrintT(ToJson([w |-> cls, unset |-> TRUE]))
+EmitRead == /\ (phase = "defined" /\ phase' = "refused") => PrintT(ToJson([w |-> cls, wd |-> defn, unset |-> TRUE]))
             /\ (phase = "stored" /\ phase' = "read") =>
-              PrintT(ToJson([w |-> store.order, sets |-> [i \in Ix(wsets) |-> Srt(wsets[i])], rows |-> store.rows,
-                             r |-> cls, now |-> cls', back |-> [i \in Ix(back') |-> Srt(back'[i])]]))
+              PrintT(ToJson([w |-> store.order, wd |-> store.wdef, sets |-> [i \in Ix(wsets) |-> Srt(wsets[i])], rows |-> store.rows,
+                             r |-> cls, rd |-> defn, now |-> cls', back |-> [i \in Ix(back') |-> Srt(back'[i])]]))
 =====================================================================================================
